@@ -1335,8 +1335,13 @@ def run(ctx):
                  "with the output of documented-equivalent specifiers; animated APNG / WebP / GIF file sources with iterm2 "
                  "L / W / A / no method and kitty L / W at several seek positions: frames held and frame shown by every "
                  "transmitted picture, equality with the frame of ImageIterator(image, 1, spec) — judged inside Coq "
-                 "(FmtDenTie.acheck / fcheck); counted: distinct (style, specifier, background, pixels) and (source, specifier, "
-                 "route, position) cases."),
+                 "(FmtDenTie.fcheck, FmtDenPixTie.xcheck); counted: distinct (style, specifier, background, pixels) and (source, "
+                 "specifier, route, position) cases.  Round 8: block pixels are judged by the EXACT threshold rule (alpha level >= "
+                 "nearest integer to 255 t <=> opaque; thresholds with the fractional part of 255 t below / at / above one half, "
+                 "pixels at floor-1 .. floor+2); still PNG sources (RGBA / LA / P / RGB / L; file, PIL image with file name, PIL "
+                 "image in memory; fitting / down-scaled; method L / W / A; read_from_file library default / on / off) on iterm2 "
+                 "and kitty: the transmitted pictures are decoded and their pixels judged against the source pixel "
+                 "(FmtDenPixTie.tcheck); counted: distinct jobs."),
         "samples": samples + [f"{st}:{sp!r}" for st, sp, _, _ in acc_cases[:3]] + out.get("_env_samples", []),
         "histogram": out["histogram"],
         "mismatches": out["mismatches"],
@@ -1353,9 +1358,13 @@ def run(ctx):
             "inputs (environment variables, the terminal's identity) are exercised only as far as the child processes "
             "of the correspondence fix them (COLUMNS/LINES = the terminal size, queries disabled)",
             "z-index digits: the documentation says 'integer'; read as what int() accepts (Unicode decimal digits)",
-            "denotation on the output: Pillow's alpha compositing is the exact blend to within one unit per channel; pixels "
-            "whose alpha is within one unit of the threshold are not judged; the terminal's background colour enters through "
+            "denotation on the output: Pillow's alpha compositing is the exact blend to within one unit per channel (two units "
+            "for a transmitted picture that was resampled first); the terminal's background colour enters through "
             "the test-suite's stub of get_fg_bg_colors()",
+            "exact threshold: the documentation's 'alpha value above the given threshold' is read as 'alpha level at or above the "
+            "level nearest to 255 * threshold' (at an exact tie k + 1/2 either neighbour; the model: half-to-even); only "
+            "thresholds whose double product rounds like the exact one are generated (at most 12 digits, re-checked with "
+            "Python's round())",
             "a threshold '.ddd' denotes the double nearest to the decimal (checked to 2^-54); '#.99999999999999999999' "
             "is 1.0 as a double, which draw(alpha=) would refuse — not exercised, not counted as a violation",
         ],
@@ -1364,7 +1373,9 @@ def run(ctx):
             "re-checked in Coq)",
             "impl driver: instance-level wrappers of _format_render/_render_image; draw() output captured from sys.stdout",
             "denotation driver (impl_c19den.py): the shared lexer reads the block text (fg/bg SGR + half-block glyphs) and the "
-            "graphics payloads; Pillow decodes the transmitted pictures; a frame is identified by the colour of its first pixel",
+            "graphics payloads; Pillow decodes the transmitted pictures; a frame is identified by the colour of its first pixel; "
+            "round 8: Pillow writes the still PNG sources and reads back the source pixel (convert('RGBA')) and the transmitted "
+            "pixels (corners and centre of every picture)",
             "environment driver (impl_c19env.py): pty.openpty + TIOCSWINSZ give the child a terminal of the stated size; "
             "the child reports isatty() of its streams, utils._tty_fd and get_terminal_size(), which the plugin compares "
             "with the requested environment (a difference is an infrastructure error); the measurement of the geometry "
